@@ -202,6 +202,18 @@ Theorem C13_bytes_array_path_stuck :
 Proof. exact bytes_array_path_stuck. Qed.
 Print Assumptions C13_bytes_array_path_stuck.
 
+(* on ANY calldata (valid encoding or not) a handler of the table either returns a condition or
+   raises one of two classes: the one of the unsupported overloads (a stuck path, above) or
+   UnicodeDecodeError (the known finding); in particular mk_cond's ValueError -- which no clause
+   of SEVM.run would catch -- is unreachable from the table *)
+Theorem C13_handler_raises_only :
+  forall d cd h, In d all_descrs -> mk_assert_handler (render d) = Some h ->
+    hres_raises (run_handler h cd) = None
+    \/ hres_raises (run_handler h cd) = Some unsupported_class
+    \/ hres_raises (run_handler h cd) = Some "UnicodeDecodeError"%string.
+Proof. exact handler_raises_only. Qed.
+Print Assumptions C13_handler_raises_only.
+
 (* the handlers in the source are built from the extractors, offsets, message positions and
    raised class the model uses *)
 Theorem C13_source_arms :
